@@ -37,6 +37,7 @@ type spSeg struct {
 	MaxO int     `json:"maxO"`
 	MinT int     `json:"minT"`
 	MaxT int     `json:"maxT"`
+	Sm   string  `json:"sm"` // statistics mode of the layout (echoed)
 }
 
 type spQuery struct {
